@@ -713,11 +713,31 @@ def generate():
     lines.append("Definition site_info : list (nat * string) := [")
     lines.append(";\n".join('  (%d, "%s")' % (i, site_key(s).replace('"', '""')) for i, s in enumerate(w.sites)))
     lines.append("].")
+    # importlib.util.find_spec imports every PARENT package of a dotted name: each call is listed (module|function|call text)
+    specs = []
+    from .common import discover as _discover, is_test_module as _is_test, parse as _parse
+    for m_, (path_, _p) in sorted(_discover().items()):
+        if _is_test(m_):
+            continue
+        tree_ = _parse(path_)
+        parents_ = {}
+        for n_ in ast.walk(tree_):
+            for ch_ in ast.iter_child_nodes(n_):
+                parents_[ch_] = n_
+        for n_ in ast.walk(tree_):
+            if isinstance(n_, ast.Call) and ((isinstance(n_.func, ast.Name) and n_.func.id == "find_spec") or
+                                            (isinstance(n_.func, ast.Attribute) and n_.func.attr == "find_spec")):
+                f_ = n_
+                while f_ in parents_ and not isinstance(f_, (ast.FunctionDef, ast.AsyncFunctionDef)):
+                    f_ = parents_[f_]
+                fn_ = f_.name if isinstance(f_, (ast.FunctionDef, ast.AsyncFunctionDef)) else "<module>"
+                specs.append("%s|%s|%s" % (m_, fn_, " ".join(ast.unparse(n_).split())[:120]))
+    lines.append("Definition find_spec_calls : list string := [%s]." % "; ".join('"%s"' % x.replace('"', '""') for x in specs))
     lines.append("Definition n_functions : nat := %d." % len(order))
     lines.append("Definition n_sites : nat := %d." % len(w.sites))
     meta = {"functions": len(order), "sites": len(w.sites), "stmts": sum(size(b) for b in blocks),
             "unsupported": [s for s in w.sites if s["kind"] == "KUnsupported"], "missing_entries": missing,
-            "site_table": w.sites, "names": order, "analysis_entries": ents}
+            "site_table": w.sites, "names": order, "analysis_entries": ents, "find_spec_calls": specs}
     return {"EffectSkeleton.v": "\n".join(lines) + "\n"}, meta
 
 
